@@ -72,3 +72,27 @@ claim("C03", "affine equalities and value-flow bindings over AppendSignature / O
 
 NA["C16"] = ("acceptance of third-party signatures depends on the bytes other tools emit at run time (attribute order/encoding "
              "chosen by OpenSSL/sbsign); the source holds no representation of them, so no structural condition beyond C04/C13 exists to check statically")
+
+# Additions of the later build rounds (DESIGN.md §9, §10.2, §10.4): appended to the level text.
+def more(i, extra):
+    t, text, ref = CLAIMS[i]
+    CLAIMS[i] = (t, text + " Also decided (added with the seeded-change rounds, DESIGN.md §10): " + extra, ref)
+
+more("C01", "the part search and part-relative offsets of the concatenating reader; only empty sections are skipped; padding from shared memory is never written; Parse keeps nothing in package-level memory and returns no pooled storage.")
+more("C02", "all rules of C01 for the digest that is compared; parsed signature objects are frozen after construction; every source of the tested error is the signature check.")
+more("C03", "the emitter rules of C05; entry padding judged by value modulo 8; the image verifier's identity and signature facts; distinct signature objects; shared padding never written; no pooled storage in results.")
+more("C04", "the signer's serial number is decoded as an ASN.1 INTEGER; parsed signature objects are frozen.")
+more("C05", "exactness of the embedded signature bytes; producers keep no package-level state and return no pooled storage.")
+more("C06", "the emitter rules of C05; the prepared update is not consumed by encoding it; no pooled storage in the result.")
+more("C07", "Unmarshal replaces its receiver; sizes are computed from the stored bytes; an accepting path that never reads HeaderSize is reported whatever the shape; codecs keep no package-level state and return no pooled storage.")
+more("C08", "no read-ahead consumers; inside a list an io.EOF from the caller's stream never becomes success; HeaderSize == 0 is required for acceptance.")
+more("C09", "failure atomicity; sizes from the stored bytes; input stored unchanged only if pem.Decode found no block.")
+more("C10", "exact consumption and no upper bound on declared lengths; encoders only append; fixed-width copies are length-checked; no legal EFI_TIME value is refused; codecs keep no package-level state.")
+more("C11", "argument mapping; exact open flags; typed accessors pass definitions with the table's attributes.")
+more("C12", "one file per definition; encoders are pure; once the descriptor decoded the payload is what is stored; the strip predicate refuses no legal timestamp.")
+more("C13", "fixed-width decodes need a length; no unchecked assertion on parsed values; lock pairing; input-selected hash functions are tested; the hashed stream is never materialised.")
+more("C14", "fixed-width decodes need a length; no unchecked assertion on parsed values; lock pairing.")
+more("C15", "short reads are noticed; deferred stores count only into result cells; image state is kept only after a complete read.")
+more("C17", "BOM policy, surrogate-free hand encoders are not decided; the UTF-16 decoder is drained; conversions keep no package-level state and return no pooled storage.")
+more("C18", "every BootOrder entry is decoded (this rule found and led to the repair of efi.GetBootOrder); decoders replace a reused receiver; rendering indexes no table with an unchecked field; partial use of wire fields and code-unit arithmetic.")
+more("C19", "scratch buffers kept on the object are never written by anything a read-only operation reaches, io.Copy callbacks included; scratch copies that share elements with the receiver count as receiver-reachable; no pooled storage in results.")
